@@ -157,6 +157,14 @@ def main():
     res = {"ok": True}
     try:
         res["scenic_path"] = os.path.dirname(scenic.__file__)
+        if job.get("files"):  # e.g. a world model the program names in a `model` statement
+            import tempfile
+
+            moddir = tempfile.mkdtemp(prefix="c15-files-", dir=os.path.dirname(out_path))
+            for fname, content in job["files"].items():
+                with open(os.path.join(moddir, fname), "w") as f:
+                    f.write(content)
+            sys.path.insert(0, moddir)
         # ---- perturbation 4: a REUSED process: another scenario was compiled and sampled here before
         if pert.get("warmup"):
             random.seed(99)
